@@ -51,6 +51,12 @@ CLAIMS = {
          'by exhaustive evaluation inside Coq (bound stated).',
          'Partial: per-step advance inside execute_instruction, flag-setting of 16-bit encodings in IT blocks and the '
          'exception-entry/return handling of IT bits are not yet theorems.'),
+ 'C09': ('representative classes proved bit-exact for every operand value and state: MUL (N/Z from the truncated result), QADD '
+         '(saturation and the sticky Q flag), UBFX, CLZ, SEL (GE-driven byte select); BFI proved to do exactly what the code does and '
+         'shown not to be the architectural BFI (recorded finding). The helper arithmetic they share (SignedSatQ, AddWithCarry, '
+         'bit fields, sign extension) is C17.',
+         'Partial: the other ~85 classes (long/halfword/dual multiplies, divide, parallel add/subtract, saturations, extends, '
+         'reversals) are covered by the regenerated model and the whole-step correspondence only.'),
  'C10': ('the bank table (LookUpRName = architectural banks) for every configuration/register/mode, aliasing iff same '
          'architectural register, read-after-write, histories of writes by induction, current-mode access, PC read value, '
          'SPSR banking.',
